@@ -441,3 +441,19 @@ example : (srcExec C20_examples.cfg (fun _ => false) Src.init C20_examples.pre).
   decide +kernel
 
 end ModelIsSource
+
+/-! ## 9. A request is its channel (appended)
+
+The model identifies a `ComponentMetricRequest` with its registry channel (`Chan`).  Read off the current source of
+`_component_metric_request.py` on every run: `get_channel_name()` formats exactly namespace, component id, metric name
+and start time, and recomputes the name from the current field values on every call — no `cached_property` /
+`lru_cache` / memo attribute, so a request object that was copied or mutated after its name was read and is submitted
+again names the channel of its NEW field values. -/
+
+theorem C20_channel_name_is_fields :
+    chanIsChannelName channelName = true ∧ channelName.pure = true ∧
+    channelName.fields = ["namespace", "component_id", "metric_id.name", "start_time"] := by
+  have h : chanIsChannelName channelName = true := by decide
+  refine ⟨h, ?_, ?_⟩ <;> simp [chanIsChannelName] at h
+  · exact h.1
+  · exact h.2
